@@ -51,6 +51,52 @@ Proof. exact brute_opt_min. Qed.
 Theorem C15_brute_solve_optimal : optimal_full brute_solve.
 Proof. exact brute_solve_contract. Qed.
 
+(* ---- D14: every region excluded from in_domain fails, with a concrete table (the known-finding classes);
+   rectangular single-type tables outside the domain lie in one of the four classes *)
+Theorem C15_domain_or_known : forall u W, rectb W = true -> mixedb W = false ->
+  in_domainb u W = true \/ kf_all_missing u W = true \/ kf_negative_with_missing u W = true \/
+  kf_sentinel_overflow u W = true \/ kf_beyond_2p53 u W = true.
+Proof. exact in_domain_or_known. Qed.
+
+Theorem C15_all_missing_refuted :
+  let W := [[None; None]; [None; None]] in
+  rectb W = true /\ mixedb W = false /\ kf_all_missing 1 W = true /\
+  forall solve, mwbm solve 1 W = Err TypeError.
+Proof. exact C15_all_missing_refuted. Qed.
+
+Theorem C15_negative_with_missing_refuted :
+  let W := [[Some (WI 3); None]; [Some (WI (-5)); None]] in
+  rectb W = true /\ mixedb W = false /\ kf_negative_with_missing 1 W = true /\
+  forall solve, mwbm solve 1 W = Err AssertionError.
+Proof. exact C15_negative_with_missing_refuted. Qed.
+
+Theorem C15_negative_needs_negative : forall u W, rectb W = true -> 0 < one_of u W ->
+  kf_negative_with_missing u W = true -> exists w, In (Some w) (cells W) /\ wnum w < 0.
+Proof. exact kf_negative_needs_negative. Qed.
+
+Theorem C15_sentinel_overflow_refuted :
+  let W := [[Some (WI (2 ^ 64 - 1)); None]] in
+  rectb W = true /\ mixedb W = false /\ kf_sentinel_overflow 1 W = true /\ kf_negative_with_missing 1 W = false /\
+  forall solve, mwbm solve 1 W = Err OverflowError.
+Proof. exact C15_sentinel_overflow_refuted. Qed.
+
+(* optimality fails beyond the float64-exact range for a solver that meets the contract but rounds like scipy *)
+Theorem C15_beyond_2p53_refuted :
+  let W := [[Some (WI (2 ^ 53 + 1)); Some (WI (2 ^ 53))]; [Some (WI (2 ^ 53)); Some (WI (2 ^ 53))]] in
+  optimal_full solve_rounded /\ rectb W = true /\ mixedb W = false /\ complete W /\
+  kf_beyond_2p53 1 W = true /\ kf_sentinel_overflow 1 W = false /\
+  exists m m', mwbm solve_rounded 1 W = OK m /\ valid W m' /\ length m' = length m /\ total m' < total m.
+Proof. exact C15_beyond_2p53_refuted. Qed.
+
+(* the model's outcome on every table of the first two classes *)
+Theorem C15_all_missing_outcome : forall solve u W, rectb W = true -> mixedb W = false ->
+  kf_all_missing u W = true -> mwbm solve u W = Err TypeError.
+Proof. exact kf_all_missing_outcome. Qed.
+
+Theorem C15_negative_outcome : forall solve u W, rectb W = true -> mixedb W = false ->
+  kf_negative_with_missing u W = true -> mwbm solve u W = Err AssertionError.
+Proof. exact kf_negative_outcome. Qed.
+
 Print Assumptions C15_total.
 Print Assumptions C15_valid.
 Print Assumptions C15_opt.
@@ -59,3 +105,11 @@ Print Assumptions C15_holds.
 Print Assumptions C15_get_dtype_fits.
 Print Assumptions C15_brute_opt_min.
 Print Assumptions C15_brute_solve_optimal.
+Print Assumptions C15_domain_or_known.
+Print Assumptions C15_all_missing_refuted.
+Print Assumptions C15_negative_with_missing_refuted.
+Print Assumptions C15_negative_needs_negative.
+Print Assumptions C15_sentinel_overflow_refuted.
+Print Assumptions C15_beyond_2p53_refuted.
+Print Assumptions C15_all_missing_outcome.
+Print Assumptions C15_negative_outcome.
